@@ -15,7 +15,8 @@ import z3
 from . import values as Vm
 
 RLIMIT = int(os.environ.get('PYVC_RLIMIT', '30000000'))
-TIMEOUT_MS = int(os.environ.get('PYVC_TIMEOUT_MS', '20000'))
+TIMEOUT_MS = int(os.environ.get('PYVC_TIMEOUT_MS', '15000'))
+TIMEOUT2_MS = int(os.environ.get('PYVC_TIMEOUT2_MS', '4000'))
 
 
 def has_quantifier(fs):
@@ -34,12 +35,11 @@ def has_quantifier(fs):
 
 
 def build(ob, extra=()):
-    fs = list(ob.hyps) + list(extra) + Vm.str_distinct_axioms()
+    fs = list(ob.hyps) + list(extra) + Vm.str_distinct_axioms() + list(Vm.ListOps.axioms)
     return fs, z3.Not(ob.goal)
 
 
-def check_z3(fs, neg_goal, quantified, want_model=True):
-    t0 = time.time()
+def _mk_solver(quantified, seed=0, timeout=None):
     if quantified:
         s = z3.SimpleSolver()
         s.set('auto_config', False)
@@ -47,8 +47,17 @@ def check_z3(fs, neg_goal, quantified, want_model=True):
         s.set('smt.ematching', True)
     else:
         s = z3.Solver()
-    s.set('timeout', TIMEOUT_MS)
+    s.set('timeout', timeout or TIMEOUT_MS)
     s.set('rlimit', RLIMIT)
+    if seed:
+        s.set('smt.random_seed', seed)
+        s.set('sat.random_seed', seed) if not quantified else None
+    return s
+
+
+def check_z3(fs, neg_goal, quantified, want_model=True, seed=0, timeout=None):
+    t0 = time.time()
+    s = _mk_solver(quantified, seed, timeout)
     for f in fs:
         s.add(f)
     s.add(neg_goal)
@@ -66,12 +75,22 @@ def check_z3(fs, neg_goal, quantified, want_model=True):
 def check_z3_mbqi(fs, neg_goal):
     t0 = time.time()
     s = z3.Solver()
-    s.set('timeout', TIMEOUT_MS)
+    s.set('timeout', TIMEOUT2_MS)
     for f in fs:
         s.add(f)
     s.add(neg_goal)
     r = s.check()
     return str(r), (s.reason_unknown() if r == z3.unknown else ''), time.time() - t0
+
+
+def check_roundtrip(smt2, seed=0, timeout=None):
+    """Same query re-parsed from SMT-LIB text: a different internal term order; de-flakes E-matching /
+    non-linear arithmetic, whose success depends on incidental ordering."""
+    t0 = time.time()
+    s = _mk_solver(True, seed, timeout)
+    s.add(z3.parse_smt2_string(smt2))
+    r = s.check()
+    return str(r), time.time() - t0
 
 
 def check_cli(smt2: str, which='cvc5', timeout_s=30):
@@ -94,41 +113,68 @@ def check_cli(smt2: str, which='cvc5', timeout_s=30):
         os.unlink(path)
 
 
+PORTFOLIO_MS = [int(x) for x in os.environ.get('PYVC_PORTFOLIO_MS', '3000,3000,5000,5000,10000').split(',')]
+
+
 def discharge(ob, cross_check=False):
+    """Portfolio: only `unsat` from some configuration discharges; nothing else is interpreted."""
     fs, ng = build(ob)
     q = has_quantifier(fs + [ng])
-    r, model, reason, dt, s = check_z3(fs, ng, q)
-    ob.backend = 'z3-ematch' if q else 'z3'
-    ob.time_s = dt
-    if r == 'unsat':
-        ob.status = 'discharged'
-    elif r == 'sat':
-        ob.status = 'failed'
-        ob.model = model
-    else:
-        ob.status = 'unknown'
-        ob.reason = reason
-        if q:
-            # second configuration: default solver (MBQI on) under the same budget
-            r2, reason2, dt2 = check_z3_mbqi(fs, ng)
-            ob.time_s += dt2
-            if r2 == 'unsat':
-                ob.status = 'discharged'
-                ob.backend = 'z3-mbqi'
-            elif r2 == 'sat':
-                ob.status = 'unknown'
-                ob.reason = 'sat under MBQI (model over quantified hypotheses, not trusted)'
-        if ob.status == 'unknown' and cross_check:
-            try:
+    if not q:
+        r, model, reason, dt, s = check_z3(fs, ng, False)
+        ob.backend, ob.time_s = 'z3', dt
+        if r == 'unsat':
+            ob.status = 'discharged'
+            return ob
+        if r == 'sat':
+            ob.status, ob.model = 'failed', model
+            return ob
+        ob.status, ob.reason = 'unknown', reason
+        q = True     # fall through to the portfolio
+    total = 0.0
+    smt2 = None
+    last_reason = ''
+    for k, ms in enumerate(PORTFOLIO_MS):
+        if k % 2 == 0:
+            r, _, reason, dt, s = check_z3(fs, ng, True, want_model=False, seed=k, timeout=ms)
+            if smt2 is None:
                 smt2 = s.to_smt2()
-                res, dt3 = check_cli(smt2, 'cvc5')
-                ob.time_s += dt3
-                if res == 'unsat':
-                    ob.status = 'discharged'
-                    ob.backend = 'cvc5'
-            except Exception as e:     # noqa
-                pass
+            backend = f'z3-ematch' if k == 0 else f'z3-ematch(seed={k})'
+        else:
+            r, dt = check_roundtrip(smt2, seed=k, timeout=ms)
+            reason = ''
+            backend = f'z3-ematch(reparsed,seed={k})'
+        total += dt
+        if r == 'unsat':
+            ob.status, ob.backend, ob.time_s = 'discharged', backend, total
+            _dump(ob, smt2, r)
+            return ob
+        last_reason = reason or last_reason
+        if reason.startswith('(incomplete') and k >= 2:
+            break       # E-matching saturated twice: more seeds will not help
+    ob.status, ob.reason, ob.backend, ob.time_s = 'unknown', last_reason, 'z3-ematch', total
+    r2, reason2, dt2 = check_z3_mbqi(fs, ng)
+    ob.time_s += dt2
+    if r2 == 'unsat':
+        ob.status, ob.backend = 'discharged', 'z3-mbqi'
+    elif cross_check and smt2:
+        try:
+            res, dt3 = check_cli(smt2, 'cvc5')
+            ob.time_s += dt3
+            if res == 'unsat':
+                ob.status, ob.backend = 'discharged', 'cvc5'
+        except Exception:     # noqa
+            pass
+    _dump(ob, smt2, ob.status)
     return ob
+
+
+def _dump(ob, smt2, r):
+    dump = os.environ.get('PYVC_DUMP')
+    if dump and smt2 and r != 'unsat':
+        os.makedirs(dump, exist_ok=True)
+        with open(os.path.join(dump, ob.name.replace('/', '.').replace(':', '_') + '.smt2'), 'w') as f:
+            f.write(smt2)
 
 
 def satisfiable(fs, goal):
@@ -141,7 +187,7 @@ def satisfiable(fs, goal):
 
 
 def cover(fs, goal):
-    fs = list(fs) + Vm.str_distinct_axioms()
+    fs = list(fs) + Vm.str_distinct_axioms() + list(Vm.ListOps.axioms)
     q = has_quantifier(fs + [goal])
     if q:
         s = z3.SimpleSolver()
